@@ -197,7 +197,7 @@ class Ctx:
     # ------------------------------------------------------------------ engine K
     def run_kani(self, files):
         hs = [h for h in K.parse_harnesses(files) if h.prop is None or self.pid in h.prop.split(',')]
-        hs = [h for h in hs if (h.tier == 'quick' or self.tier == 'thorough') and self.want(h.name)]
+        hs = [h for h in hs if (h.tier == 'quick' or self.tier == 'thorough') and self.want(h.full)]
         if not hs:
             return
         self.target = K.prepare_target(f'{self.pid}_{os.getpid()}')
